@@ -70,7 +70,7 @@ theorem decodeFormat0_noPanic (data : Bytes) (h : 6 ≤ data.length) : (decodeFo
 
 /-- the guard is needed: the bare function panics at `data[6:]` below 6 bytes -/
 theorem decodeFormat0_short_panics (data : Bytes) (h : data.length < 6) :
-    decodeFormat0 data = .panic "format0.go:33#data[6:]" := by
+    decodeFormat0 data = .panic "format0.go:29#data[6:]" := by
   unfold decodeFormat0
   rw [slice_panic _ _ _ _ (by omega)]
   rfl
@@ -114,6 +114,105 @@ theorem decodeFormat0_erase (b : Bytes) : erase (decodeFormat0 b) = unsite (Sfnt
     rw [this]
     show erase (if _ then _ else _) = unsite (if _ then _ else _)
     split <;> rfl
+
+/-! ### `decodeFormat0` with a non-nil `code2rune` (repair 0c896bc) -/
+
+theorem loop0_spec (c2r : Nat → Nat) : ∀ (l : Bytes) (i : Nat) (c : Cost),
+    (loop0 c2r l i c).2.steps = c.steps + l.length ∧ (loop0 c2r l i c).2.alloc ≤ c.alloc + l.length ∧
+    (loop0 c2r l i c).1.length ≤ l.length
+  | [], _, c => by simp [loop0]
+  | g :: rest, i, c => by
+    unfold loop0
+    dsimp only
+    by_cases hg : g.toNat ≠ 0
+    · have ih := loop0_spec c2r rest (i + 1) (c.tick.mem 1)
+      simp only [if_pos hg, Cost.tick, Cost.mem, List.length_cons] at ih ⊢
+      omega
+    · have ih := loop0_spec c2r rest (i + 1) c.tick
+      simp only [if_neg hg, Cost.tick, List.length_cons] at ih ⊢
+      omega
+
+/-- the Macintosh branch does not panic on data of at least 6 bytes either … -/
+theorem decodeFormat0C2r_noPanic (c2r : Nat → Nat) (data : Bytes) (h : 6 ≤ data.length) :
+    (decodeFormat0C2r c2r data).noPanic := by
+  unfold decodeFormat0C2r
+  rw [slice_ok _ _ _ _ h (Nat.le_refl _)]
+  show (if _ then _ else _ : Outcome (List (Nat × Nat) × Cost)).noPanic
+  split <;> exact True.intro
+
+/-- … and has the same bare-function guard -/
+theorem decodeFormat0C2r_short_panics (c2r : Nat → Nat) (data : Bytes) (h : data.length < 6) :
+    decodeFormat0C2r c2r data = .panic "format0.go:29#data[6:]" := by
+  unfold decodeFormat0C2r
+  rw [slice_panic _ _ _ _ (by omega)]
+  rfl
+
+/-- cost of the Macintosh branch: 256 loop iterations, at most 256 map entries plus the map -/
+theorem decodeFormat0C2r_cost (c2r : Nat → Nat) (data : Bytes) (ws : List (Nat × Nat)) (c : Cost)
+    (h : decodeFormat0C2r c2r data = .ok (ws, c)) :
+    data.length = 262 ∧ c.steps = 256 ∧ c.alloc ≤ 257 ∧ ws.length ≤ 256 ∧
+      c.steps ≤ data.length ∧ c.alloc ≤ data.length := by
+  unfold decodeFormat0C2r at h
+  obtain ⟨d', hd', h⟩ := bind_eq_ok h
+  obtain ⟨h6, _, hd⟩ := slice_eq_ok hd'
+  subst hd
+  split at h
+  · cases h
+  · rename_i hl
+    have hl' : ((data.drop 6).take (data.length - 6)).length = 256 := by
+      apply Classical.byContradiction; intro hne; exact hl hne
+    have hsp := loop0_spec c2r ((data.drop 6).take (data.length - 6)) 0 (Cost.zero.mem 1)
+    injection h with h
+    rw [h] at hsp
+    rw [hl'] at hsp
+    simp only [Cost.zero, Cost.mem] at hsp
+    rw [List.length_take, List.length_drop] at hl'
+    omega
+
+theorem loop0_erase (c2r : Nat → Nat) (d : Bytes) : ∀ (n i : Nat) (c : Cost), i + n = d.length →
+    (loop0 c2r (d.drop i) i c).1 = (List.range' i n).filterMap fun k =>
+      let g := (d.getD k 0).toNat
+      if g ≠ 0 then some (c2r k % 65536, g) else none
+  | 0, i, c, h => by
+    rw [List.drop_eq_nil_of_le (by omega)]
+    rfl
+  | n+1, i, c, h => by
+    have hi : i < d.length := by omega
+    rw [List.drop_eq_getElem_cons hi, List.range'_succ, List.filterMap_cons]
+    unfold loop0
+    dsimp only
+    have hg : (d.getD i 0) = d[i] := by
+      rw [List.getD_eq_getElem?_getD, List.getElem?_eq_getElem hi]; rfl
+    rw [hg]
+    by_cases h0 : d[i].toNat ≠ 0
+    · rw [if_pos h0, if_pos h0, if_pos h0]
+      dsimp only
+      rw [loop0_erase c2r d n (i + 1) _ (by omega)]
+    · rw [if_neg h0, if_neg h0, if_neg h0]
+      dsimp only
+      rw [loop0_erase c2r d n (i + 1) _ (by omega)]
+
+/-- bridging lemma to C09's model of the repaired Macintosh branch -/
+theorem decodeFormat0C2r_erase (c2r : Nat → Nat) (b : Bytes) :
+    erase (decodeFormat0C2r c2r b) = unsite (SfntV.Cmap06.decode0c2r c2r b) := by
+  unfold SfntV.Cmap06.decode0c2r SfntV.Cmap06.decode0
+  by_cases h : b.length < 6
+  · rw [decodeFormat0C2r_short_panics c2r b h, if_pos h]; rfl
+  · rw [if_neg h]
+    unfold decodeFormat0C2r
+    rw [slice_ok _ _ _ _ (by omega) (Nat.le_refl _)]
+    have : (b.drop 6).take (b.length - 6) = b.drop 6 := by
+      apply List.take_of_length_le; rw [List.length_drop]; omega
+    rw [this, ok_bind]
+    dsimp only
+    by_cases hl : (b.drop 6).length ≠ 256
+    · rw [if_pos hl, if_pos hl]; rfl
+    · rw [if_neg hl, if_neg hl]
+      have hl' : (b.drop 6).length = 256 := Classical.not_not.mp hl
+      have he := loop0_erase c2r (b.drop 6) 256 0 (Cost.zero.mem 1) (by omega)
+      rw [List.drop_zero] at he
+      show Outcome.ok _ = Outcome.ok _
+      rw [he, List.range_eq_range']
 
 /-- `Format0.Lookup(r)` (as repaired) returns a glyph for EVERY rune, negative ones included, on
 the 256-byte array of a decoded format 0 subtable -/
@@ -768,7 +867,10 @@ theorem decoders_spec (dec4 dec12 : Dec Sub)
     split at hd
     · injection hd with hd
       subst hd
-      exact bind_noPanic (decodeFormat0_noPanic d (by omega)) (fun _ _ => True.intro)
+      dsimp only
+      split
+      · exact bind_noPanic (decodeFormat0C2r_noPanic _ d (by omega)) (fun _ _ => True.intro)
+      · exact bind_noPanic (decodeFormat0_noPanic d (by omega)) (fun _ _ => True.intro)
     split at hd
     · injection hd with hd
       subst hd
@@ -1299,6 +1401,10 @@ example : get (decoders (fun _ _ => .err "x") (fun _ _ => .err "x"))
 
 example : decodeFormat0 ([0,0,1,6,0,0] ++ List.replicate 256 7)
     = .ok (List.replicate 256 7, ⟨256, 256⟩) := by decide +kernel
+
+/-- the Macintosh branch: code 255 carries glyph 7 and is stored under the rune of code 255 -/
+example : decodeFormat0C2r (fun c => c + 1000) ([0,0,1,6,0,0] ++ List.replicate 255 0 ++ [7])
+    = .ok ([(1255, 7)], ⟨256, 2⟩) := by decide +kernel
 
 example : lookup0 (List.replicate 256 7) 65 = .ok 7 ∧ lookup0 (List.replicate 256 7) (-1) = .ok 0 := by
   decide +kernel
